@@ -42,3 +42,22 @@ Proof.
   - destruct l; [discriminate|congruence].
   - intros t Hti. rewrite forallb_forall in H2. apply N.ltb_lt. now apply H2.
 Qed.
+
+(* the same over an explicit set of tags (the tags gogrep's operation table can give to a compiled pattern) *)
+Definition place_tags_ok (nb : N) (cases : list (N * place)) (tags : list N) : bool :=
+  forallb (fun t => place_ok nb (place_of cases t)) tags.
+
+Lemma place_tags_ok_spec nb cases tags :
+  place_tags_ok nb cases tags = true ->
+  forall tag, In tag tags ->
+    match place_of cases tag with
+    | PErr => True
+    | PTags l => l <> [] /\ forall t, In t l -> t < nb
+    end.
+Proof.
+  intros H tag Hin. unfold place_tags_ok in H. rewrite forallb_forall in H. specialize (H tag Hin).
+  destruct (place_of cases tag) as [|l]; [exact I|].
+  cbn in H. apply andb_true_iff in H. destruct H as [H1 H2]. split.
+  - destruct l; [discriminate|congruence].
+  - intros t Hti. rewrite forallb_forall in H2. apply N.ltb_lt. now apply H2.
+Qed.
